@@ -10,8 +10,8 @@
    outcomes are the real code's is the correspondence run, which executes every generated
    case in the real engine under a stack limit and a deadline, in an isolated process for the
    crash-prone ones. Memory exhaustion and goroutine scheduling are outside the model. *)
-From PV Require Import Lib.Outcome Model.Lexer Model.ParseExpr Model.ParseDoc Model.Filters Model.Exec Model.Api Spec.SpecWalk Spec.SpecNoPanic Spec.SpecWf.
-From PV Require Import Tie.C01.
+From PV Require Import Lib.Outcome Model.Lexer Model.ParseExpr Model.ParseDoc Model.Filters Model.Exec Model.Api Spec.SpecWalk Spec.SpecNoPanic Spec.SpecWf Spec.SpecWfParse.
+From PV Require Import Tie.C01 Tie.C01c.
 Open Scope N_scope.
 
 (* the lexer terminates on every byte string within its linear fuel ... *)
@@ -303,3 +303,309 @@ Proof. repeat split; vm_compute; reflexivity. Qed.
 Theorem C01_compiler_no_panic_holds : forall se : senv, compiler_no_panic se.
 Proof. exact tie_compiler_no_panic_holds. Qed.
 Print Assumptions C01_compiler_no_panic_holds.
+
+(* ================= the compiler produces executable templates; end to end ================= *)
+(* Property C01 - totality, the link between the two halves: THE COMPILER ONLY PRODUCES
+   WELL-FORMED TEMPLATES, hence compiling any byte string (or any file of any set of loaders)
+   and executing the result with plain values never reaches a panic site of the model.
+
+   Props/C01.v proves "executing a well-formed template never panics" relative to two facts
+   about the compiler, [compiler_no_panic se] (proved there) and [compiler_wf se]
+   (Spec/SpecWf.v: every template compile_file returns satisfies wf_template).
+
+   FINDING.  [compiler_wf] as stated is FALSE.  wf_node asks of an if node "as many bodies as
+   conditions, or exactly one more".  The if parser (as pongo2's tagIfParser) accepts a
+   repeated else:  {% if a %}x{% else %}y{% else %}z{% endif %}  compiles to ONE condition
+   with THREE bodies (C01_compiler_wf_is_false, by computation).  This is not a panic path:
+   the executor only ever indexes bodies 0 .. number of conditions, so what it needs is the
+   lower bound "at least as many bodies as conditions" - the third body is dead code (the
+   example renders "y").  Spec/SpecWfParse.v therefore defines cwf_node / cwf_macro /
+   cwf_template: Spec/SpecWf.v's definitions with that one clause weakened to the lower bound
+   (expressions keep wf_expr unchanged), and the same state invariant over cwf_ code.  With it:
+
+   what the compiler guarantees (all for every configuration, loaders, fuel and input)
+   - C01_parse_expr_wf: each of the 16 functions of the expression parser returns well-formed
+     expressions (wf_expr: every variable, at any depth - subscripts, call arguments, filter
+     parameters, array items - starts with an identifier); the loops keep their accumulators
+     well-formed, in particular the variable loop started by parse_var_or_lit.
+   - C01_tag_args_wf: the argument parsers of the tags return well-formed expressions, pairs,
+     parameter lists; an import list drawn from a well-formed export table is well-formed.
+   - C01_doc_parsers_wf: the six document parsers (parse_elem, wrap_until, parse_tag,
+     tag_parser - every built-in tag -, if_branches, parse_doc) return cwf_ nodes and keep the
+     per-template state (blocks, exported macros, parent) cwf_; if_branches returns at least
+     as many bodies as conditions; include nodes carry a template or a name expression;
+     templates reached through extends / include / import / ssi are results of compile_file,
+     hence cwf_ by the induction on the fuel that ties the parser and the compiler together.
+   - C01_compile_src_wf_partial, C01_compiler_wf_partial: compile_src and compile_file only
+     return cwf_ templates.  "partial" = relative to the requested [compiler_wf]: the upper
+     bound on the number of bodies of an if is missing, because it is false.
+   - C01_wf_implies_cwf: every wf_ document is a cwf_ document (so nothing of Props/C01.v is
+     lost), and C01_compiler_wf_is_false: the converse fails on a compiled template.
+
+   what follows for execution (no hypothesis about the compiler left)
+   - C01_exec_compiled_never_panics: Template.Execute (buffered and unbuffered) of any cwf_
+     template, any set, any fuel, plain globals and context, never panics.
+   - C01_exec_never_panics_unconditional, C01_run_template_never_panics_unconditional: the
+     main theorems of Props/C01.v with both compiler hypotheses discharged (same statement,
+     wf_template hypothesis).
+   - C01_exec_in_state / C01_eval / C01_nodes ... _unconditional: the general forms, from any
+     state satisfying the invariant [cexec_inv]; C01_root_state_cinvariant: the state in which
+     a template's nodes start running satisfies it.
+   - C01_render_string_never_panics, C01_render_file_never_panics (and the access-log
+     variant): END TO END - for every world, every source text / file name, every plain
+     context, the observation is never [OPanic site].  ([obs_of_compile] maps an Ok outcome
+     to OPanic 99, but the entry points only call it on outcomes that are not Ok.)
+   The Examples show the hypotheses met by a non-trivial set (extends, block.Super, include of
+   the two-else template, a loop with subscripts and a filter parameter), rendered without
+   panic, and that this compiled template is cwf_ but not wf_. *)
+
+(* ================= what the compiler guarantees ================= *)
+
+Theorem C01_parse_expr_wf : forall (cfg : pcfg) (fuel : nat),
+  (forall ts e rest, parse_expression cfg fuel ts = Ok (e, rest) -> wf_expr e = true) /\
+  (forall ts e rest, parse_relational cfg fuel ts = Ok (e, rest) -> wf_expr e = true) /\
+  (forall ts e rest, parse_simple cfg fuel ts = Ok (e, rest) -> wf_expr e = true) /\
+  (forall acc ts e rest, wf_expr acc = true -> simple_loop cfg fuel acc ts = Ok (e, rest) -> wf_expr e = true) /\
+  (forall ts e rest, parse_term cfg fuel ts = Ok (e, rest) -> wf_expr e = true) /\
+  (forall acc ts e rest, wf_expr acc = true -> term_loop cfg fuel acc ts = Ok (e, rest) -> wf_expr e = true) /\
+  (forall ts e rest, parse_power cfg fuel ts = Ok (e, rest) -> wf_expr e = true) /\
+  (forall ts e rest, parse_factor cfg fuel ts = Ok (e, rest) -> wf_expr e = true) /\
+  (forall ts e rest, parse_filtered cfg fuel ts = Ok (e, rest) -> wf_expr e = true) /\
+  (forall ts chain rest, filter_loop cfg fuel ts = Ok (chain, rest) -> forallb wf_fcall chain = true) /\
+  (forall ts fc rest, parse_filter cfg fuel ts = Ok (fc, rest) -> wf_fcall fc = true) /\
+  (forall ts e rest, parse_var_or_lit cfg fuel ts = Ok (e, rest) -> wf_expr e = true) /\
+  (* [parts] is the reversed list of the parts read so far: the first one read is an identifier *)
+  (forall parts ts e rest, wf_expr (EVar (rev parts)) = true ->
+     var_loop cfg fuel parts ts = Ok (e, rest) -> wf_expr e = true) /\
+  (forall acc ts args rest, forallb wf_expr acc = true ->
+     args_loop cfg fuel acc ts = Ok (args, rest) -> forallb wf_expr args = true) /\
+  (forall ts e rest, parse_array cfg fuel ts = Ok (e, rest) -> wf_expr e = true) /\
+  (forall acc ts e rest, forallb wf_expr acc = true ->
+     array_loop cfg fuel acc ts = Ok (e, rest) -> wf_expr e = true).
+Proof. exact tie_parse_expr_wf. Qed.
+Print Assumptions C01_parse_expr_wf.
+
+Theorem C01_tag_args_wf : forall (cfg : pcfg) (fuel : nat) (ts : list token),
+  (forall e rest, pexpr cfg ts = Ok (e, rest) -> wf_expr e = true) /\
+  (forall e rest, pvarlit cfg ts = Ok (e, rest) -> wf_expr e = true) /\
+  (forall es, pexprs cfg fuel ts = Ok es -> forallb wf_expr es = true) /\
+  (forall ps, with_pairs_new cfg fuel ts = Ok ps -> wf_pairs ps = true) /\
+  (forall ps, with_pairs_old cfg fuel ts = Ok ps -> wf_pairs ps = true) /\
+  (forall ps only rest, include_pairs cfg fuel ts = Ok (ps, only, rest) -> wf_pairs ps = true) /\
+  (forall ps rest, macro_params cfg fuel ts = Ok (ps, rest) -> wf_oparams ps = true) /\
+  (forall ps rest, filter_tag_chain cfg fuel ts = Ok (ps, rest) -> wf_oparams ps = true) /\
+  (forall es name silent rest, cycle_args cfg fuel ts = Ok (es, name, silent, rest) ->
+                               forallb wf_expr es = true) /\
+  (forall exported ms, forallb (fun m => cwf_macro (snd m)) exported = true ->
+                       import_list fuel exported ts = Ok ms ->
+                       forallb (fun am => cwf_macro (snd am)) ms = true).
+Proof. exact tie_tag_args_wf. Qed.
+Print Assumptions C01_tag_args_wf.
+
+Theorem C01_doc_parsers_wf : forall (se : senv) (fuel : nat),
+  (forall level st ts n r st', wf_pst st ->
+     parse_elem se fuel level st ts = Ok (n, r, st') -> cwf_node n = true /\ wf_pst st') /\
+  (forall level names st ts ns name args r st', wf_pst st ->
+     wrap_until se fuel level names st ts = Ok (ns, name, args, r, st') ->
+     forallb cwf_node ns = true /\ wf_pst st') /\
+  (forall level st ts n r st', wf_pst st ->
+     parse_tag se fuel level st ts = Ok (n, r, st') -> cwf_node n = true /\ wf_pst st') /\
+  (forall level impl args st ts n r st', wf_pst st ->
+     tag_parser se fuel level impl args st ts = Ok (n, r, st') -> cwf_node n = true /\ wf_pst st') /\
+  (* entered with one condition and no body, re-entered with at most one condition more than
+     bodies; returns at least as many bodies as conditions *)
+  (forall level conds wrappers st ts conds' wrappers' r st',
+     forallb wf_expr conds = true -> forallb (forallb cwf_node) wrappers = true ->
+     (length conds <= S (length wrappers))%nat -> wf_pst st ->
+     if_branches se fuel level conds wrappers st ts = Ok (conds', wrappers', r, st') ->
+     forallb wf_expr conds' = true /\ forallb (forallb cwf_node) wrappers' = true /\
+     (length conds' <= length wrappers')%nat /\ wf_pst st') /\
+  (forall st ts ns st', wf_pst st ->
+     parse_doc se fuel st ts = Ok (ns, st') -> forallb cwf_node ns = true /\ wf_pst st').
+Proof. exact tie_doc_parsers_wf. Qed.
+Print Assumptions C01_doc_parsers_wf.
+
+(* the state compile_src starts parse_doc in meets the hypothesis of the previous theorem *)
+Theorem C01_initial_parse_state_wf :
+  forall (id : N) (name : str) (isstr : bool) (g : gstate), wf_pst (mkT id name isstr [] [] None, g).
+Proof. exact tie_initial_pst_wf. Qed.
+Print Assumptions C01_initial_parse_state_wf.
+
+Theorem C01_compile_src_wf_partial :
+  forall (se : senv) (fuel : nat) (name : str) (isstr : bool) (src : str) (g : gstate)
+         (t : template) (g' : gstate),
+    compile_src se fuel name isstr src g = Ok (t, g') -> cwf_template t = true.
+Proof. exact tie_compile_src_cwf. Qed.
+Print Assumptions C01_compile_src_wf_partial.
+
+(* [compiler_cwf se]: forall f name g t g', compile_file se f name g = Ok (t, g') -> cwf_template t = true *)
+Theorem C01_compiler_wf_partial : forall se : senv, compiler_cwf se.
+Proof. exact tie_compiler_cwf_holds. Qed.
+Print Assumptions C01_compiler_wf_partial.
+
+(* ---- relation with Spec/SpecWf.v ---- *)
+Theorem C01_wf_implies_cwf : forall t : template, wf_template t = true -> cwf_template t = true.
+Proof. exact tie_wf_template_cwf. Qed.
+Print Assumptions C01_wf_implies_cwf.
+
+Theorem C01_wf_node_implies_cwf : forall n : node, wf_node n = true -> cwf_node n = true.
+Proof. exact tie_wf_node_cwf. Qed.
+Print Assumptions C01_wf_node_implies_cwf.
+
+(* the file "t" = {% if a %}x{% else %}y{% else %}z{% endif %} compiles to one condition with
+   three bodies: not wf_, but cwf_ *)
+Example C01_two_else_compiles_to_three_bodies :
+  match compile_file (world_senv cx_world) 100 cx_name g0 with
+  | Ok (t, _) => (wf_template t, cwf_template t, tpl_root t)
+  | _ => (true, false, [])
+  end = (false, true,
+         [NIf [EFilt (EVar [PIdent [97] (* a *) None]) []]
+              [[NHtml 1 [120] (* x *) false false true true];
+               [NHtml 1 [121] (* y *) false false true true];
+               [NHtml 1 [122] (* z *) false false true true]]]).
+Proof. exact tie_cx_compiled_not_wf. Qed.
+
+Theorem C01_compiler_wf_is_false : ~ compiler_wf (world_senv cx_world).
+Proof. exact tie_compiler_wf_is_false. Qed.
+Print Assumptions C01_compiler_wf_is_false.
+
+(* ... and it runs, without panic: the third body is never reached *)
+Example C01_two_else_renders :
+  api_render_file cx_world cx_name [] = OOk [121] (* y *) /\
+  api_render_file cx_world cx_name [([97] (* a *), CV (as_value (VInt 1)))] = OOk [120] (* x *).
+Proof. split; vm_compute; reflexivity. Qed.
+
+(* ================= execution, with nothing assumed about the compiler ================= *)
+
+Theorem C01_exec_compiled_never_panics :
+  forall (se : senv) (globals : list (str * cval)), plain_ctx globals ->
+  forall (fuel : nat) (g : gstate) (t : template) (ctx : list (str * cval)) (site : N),
+    cwf_template t = true -> plain_ctx ctx ->
+    snd (exec_template se globals fuel (mkM [] [] g) t ctx) <> Panic site /\
+    snd (exec_template_unbuffered se globals fuel (mkM [] [] g) t ctx) <> Panic site.
+Proof. exact tie_exec_compiled_never_panics. Qed.
+Print Assumptions C01_exec_compiled_never_panics.
+
+(* Props/C01.v's C01_exec_never_panics without [compiler_wf se] and [compiler_no_panic se] *)
+Theorem C01_exec_never_panics_unconditional :
+  forall (se : senv) (globals : list (str * cval)), plain_ctx globals ->
+  forall (fuel : nat) (g : gstate) (t : template) (ctx : list (str * cval)) (site : N),
+    wf_template t = true -> plain_ctx ctx ->
+    snd (exec_template se globals fuel (mkM [] [] g) t ctx) <> Panic site /\
+    snd (exec_template_unbuffered se globals fuel (mkM [] [] g) t ctx) <> Panic site.
+Proof. exact tie_exec_never_panics_unconditional. Qed.
+Print Assumptions C01_exec_never_panics_unconditional.
+
+(* Props/C01.v's C01_run_template_never_panics likewise, and its form for compiled templates *)
+Theorem C01_run_template_never_panics_unconditional :
+  forall (w : world) (t : template) (g : gstate) (ctx : list (str * cval)) (site : N),
+    plain_ctx (w_globals w) -> wf_template t = true -> plain_ctx ctx ->
+    run_template w t g ctx <> OPanic site.
+Proof. exact tie_run_template_never_panics_unconditional. Qed.
+Print Assumptions C01_run_template_never_panics_unconditional.
+
+Theorem C01_run_compiled_never_panics :
+  forall (w : world) (t : template) (g : gstate) (ctx : list (str * cval)) (site : N),
+    plain_ctx (w_globals w) -> cwf_template t = true -> plain_ctx ctx ->
+    run_template w t g ctx <> OPanic site.
+Proof. exact tie_run_compiled_never_panics. Qed.
+Print Assumptions C01_run_compiled_never_panics.
+
+(* the general forms, from any state satisfying the invariant *)
+Theorem C01_exec_in_state_never_panics_unconditional :
+  forall (se : senv) (globals : list (str * cval)), plain_ctx globals ->
+  forall (fuel : nat) (st : mstate) (t : template) (ctx : list (str * cval)) (site : N),
+    cwf_state st -> cwf_template t = true -> cwf_ctx (length (ms_frames st)) ctx ->
+    snd (exec_template se globals fuel st t ctx) <> Panic site /\
+    snd (exec_template_unbuffered se globals fuel st t ctx) <> Panic site.
+Proof. exact tie_exec_in_state_never_panics_unconditional. Qed.
+Print Assumptions C01_exec_in_state_never_panics_unconditional.
+
+Theorem C01_eval_never_panics_unconditional :
+  forall (se : senv) (globals : list (str * cval)), plain_ctx globals ->
+  forall (fuel : nat) (st : mstate) (e : expr) (site : N),
+    cexec_inv st -> wf_expr e = true -> eval se globals fuel st e <> Panic site.
+Proof. exact tie_eval_never_panics_unconditional. Qed.
+Print Assumptions C01_eval_never_panics_unconditional.
+
+Theorem C01_nodes_never_panic_unconditional :
+  forall (se : senv) (globals : list (str * cval)), plain_ctx globals ->
+  forall (fuel : nat) (st : mstate) (ns : list node) (site : N),
+    cexec_inv st -> forallb cwf_node ns = true ->
+    snd (exec_nodes se globals fuel st ns) <> Panic site.
+Proof. exact tie_nodes_never_panic_unconditional. Qed.
+Print Assumptions C01_nodes_never_panic_unconditional.
+
+Theorem C01_nodes_keep_invariant_unconditional :
+  forall (se : senv) (globals : list (str * cval)), plain_ctx globals ->
+  forall (fuel : nat) (st : mstate) (ns : list node) (o : str) (st' : mstate),
+    cexec_inv st -> forallb cwf_node ns = true ->
+    exec_nodes se globals fuel st ns = (o, Ok st') -> cexec_inv st'.
+Proof. exact tie_nodes_keep_invariant_unconditional. Qed.
+Print Assumptions C01_nodes_keep_invariant_unconditional.
+
+Theorem C01_root_state_cinvariant :
+  forall (globals : list (str * cval)) (t : template) (ctx : list (str * cval)) (execid : N) n g,
+    plain_ctx globals -> cwf_template t = true -> plain_ctx ctx ->
+    cexec_inv (mkM [root_frame globals t ctx execid] n g).
+Proof. exact tie_root_state_cinv. Qed.
+Print Assumptions C01_root_state_cinvariant.
+
+(* ================= end to end ================= *)
+
+(* set.FromString(src) then Execute(ctx): any world, any byte string, any plain context *)
+Theorem C01_render_string_never_panics :
+  forall (w : world) (src : str) (ctx : list (str * cval)) (site : N),
+    plain_ctx (w_globals w) -> plain_ctx ctx -> api_render_string w src ctx <> OPanic site.
+Proof. exact tie_render_string_never_panics. Qed.
+Print Assumptions C01_render_string_never_panics.
+
+(* set.FromFile(name) then Execute(ctx): any loaders, any file name *)
+Theorem C01_render_file_never_panics :
+  forall (w : world) (name : str) (ctx : list (str * cval)) (site : N),
+    plain_ctx (w_globals w) -> plain_ctx ctx -> api_render_file w name ctx <> OPanic site.
+Proof. exact tie_render_file_never_panics. Qed.
+Print Assumptions C01_render_file_never_panics.
+
+Theorem C01_render_file_log_never_panics :
+  forall (w : world) (name : str) (ctx : list (str * cval)) (site : N),
+    plain_ctx (w_globals w) -> plain_ctx ctx -> fst (api_render_file_log w name ctx) <> OPanic site.
+Proof. exact tie_render_file_log_never_panics. Qed.
+Print Assumptions C01_render_file_log_never_panics.
+
+(* ---- the hypotheses are met by a real, non-trivial set of templates ---- *)
+(* base: <{% block b %}B{% endblock %}>      inc: {% if a %}x{% else %}y{% else %}z{% endif %}
+   t:    {% extends "base" %}{% block b %}{{ block.Super }}{% include "inc" %}
+         {% for i in l %}{{ i.0|add:n[0] }}{% endfor %}{% endblock %}     (on one line) *)
+Example C01c_compiled_set_is_cwf_not_wf :
+  match compile_file (world_senv wfx_world) big_fuel wfx_name g0 with
+  | Ok (t, _) => (cwf_template t, wf_template t)
+  | _ => (false, false)
+  end = (true, false).
+Proof. vm_compute. reflexivity. Qed.
+
+Example C01c_ctx_and_globals_are_plain : plain_ctx wfx_ctx /\ plain_ctx (w_globals wfx_world).
+Proof.
+  split.
+  - intros k c [E|[E|[]]]; injection E as _ <-; eexists; reflexivity.
+  - intros k c [].
+Qed.
+
+(* it renders "<By1115>" *)
+Example C01c_compiled_set_runs :
+  api_render_file wfx_world wfx_name wfx_ctx = OOk [60; 66; 121; 49; 49; 49; 53; 62].
+Proof. vm_compute. reflexivity. Qed.
+
+(* the parser's hypotheses are met as well: an expression, and a variable loop entered by
+   parse_var_or_lit on  a.b[c](d, 2)|add:n[0]  (tokens written out) *)
+Example C01c_expression_parses_wf :
+  match lex [123; 123; 32; 97; 46; 98; 91; 99; 93; 40; 100; 44; 32; 50; 41; 124; 97; 100; 100; 58;
+             110; 91; 48; 93; 32; 43; 32; 49; 32; 125; 125] (* {{ a.b[c](d, 2)|add:n[0] + 1 }} *) with
+  | LexOk (_ :: ts) =>
+      match pexpr (se_cfg (world_senv wfx_world)) ts with
+      | Ok (e, _) => wf_expr e
+      | _ => false
+      end
+  | _ => false
+  end = true.
+Proof. vm_compute. reflexivity. Qed.
